@@ -13,3 +13,4 @@ import DvidModel.Props.C09
 import DvidModel.Props.C10
 import DvidModel.Props.C19
 import DvidModel.Props.C16
+import DvidModel.Props.C13
